@@ -162,8 +162,8 @@ def run_suite(suite, tier, seed, key):
         for l in open(os.path.join(wd, fn)):
             j = json.loads(l)
             per_case[(j["c"], j["form"])] += 1
-            cap = 330 if kind == "mismatch" else 400     # observed == predicted and the model flags it: judge (nearly) all of them
-            if per_case[(j["c"], j["form"])] > cap or len(cand) >= 6000: continue
+            cap = 420 if kind == "mismatch" else 400     # observed == predicted and the model flags it: judge (nearly) all of them
+            if per_case[(j["c"], j["form"])] > cap or len(cand) >= 12000: continue
             j["kind"] = kind
             cand.append(j)
     judged = []
